@@ -23,6 +23,9 @@ func Parse(data []byte) (interface{}, error) {
 	if err := json.Unmarshal(data, obj); err != nil {
 		return nil, ErrUnmarshal.WithCause(err)
 	}
+	if err := schema.CheckNullElements(obj); err != nil {
+		return nil, ErrUnmarshal.WithCause(err)
+	}
 
 	return obj, nil
 }
